@@ -17,7 +17,10 @@ Closed here, for **every** expression / statement list, any nesting depth:
 * `lt_swaps_operands` / `le_swaps_operands` — the right operand's effects happen first;
 * `assign_value_stays` — an assignment leaves the assigned value as its value.
 
-Open (stated in DESIGN §6): the same for functions, closures, arrays, maps, loops, match —
+The fragment: literals, operators, `&&` `||`, `if`/`else` and `match` expressions, global `let`
+and assignment, blocks, `while` / `loop` with plain and labelled `break` / `continue` in
+statement position, statement-level `if`.
+Open (stated in DESIGN §6): the same for functions, closures, arrays, maps, index expressions —
 covered by the three-way differential run (real pipeline / Lean VM model on the real bytecode /
 Lean reference semantics).
 -/
